@@ -122,12 +122,13 @@ def forbidden_scan():
     return bad
 
 
-def audit(prop_id, theorems):
+def audit(prop_id, theorems, module=None):
     """Compile a tiny file that Requires Props/Cxx and prints the assumptions of each obligation."""
     os.makedirs(WORK, exist_ok=True)
-    path = os.path.join(WORK, "Audit_%s.v" % prop_id)
+    module = module or prop_id
+    path = os.path.join(WORK, "Audit_%s.v" % module)
     with open(path, "w") as f:
-        f.write("From BHW Require Import Props.%s.\n" % prop_id)
+        f.write("From BHW Require Import Props.%s.\n" % module)
         for t in theorems:
             f.write('Goal True. idtac "@@THM %s". exact I. Qed.\nPrint Assumptions %s.\n' % (t, t))
     rc, out, dt = sh(["coqc", "-Q", "theories", "BHW", "-Q", "gen", "BHWGen", path], 600, cwd=COQ)
@@ -165,6 +166,19 @@ def audit(prop_id, theorems):
             if t not in discharged and t not in failed:
                 failed.append(t)
     return discharged, failed, axioms, out
+
+
+def structure_diff(prop_id):
+    """which facts about the property's modules differ from the pinned table (evaluated by Coq)"""
+    try:
+        mods = json.load(open(os.path.join(HERE, "structure_modules.json")))[prop_id]
+        text = ("From Coq Require Import List String.\nImport ListNotations.\nFrom BHW Require Import Proofs.StructureP.\nOpen Scope string_scope.\n"
+                "Eval vm_compute in (filter (fun r => negb (module_ok (fst r))) (map (fun m => (m, structure_diff m)) [%s])).\n"
+                % "; ".join('"%s"' % m for m in mods))
+        rc, out, dt = coq_eval(prop_id, text, 9999, timeout=120)
+        return "(module, (facts now present but not pinned, pinned facts now absent)) " + re.sub(r"\s+", " ", out)[:3000]
+    except Exception as e:
+        return "diff unavailable: %r" % (e,)
 
 
 def coq_eval(prop_id, text, idx, timeout=900):
@@ -265,7 +279,9 @@ def run_property(prop_id, tier, seed, replay=None):
         # the executable model first (needed to search for a failing input even when a proof obligation breaks), then the theorems
         ok_exec, exec_out, exec_dt = make(["theories/%s.vo" % m.replace(".", "/") for m in P.exec_modules])
         ok_make, make_out, make_dt = make(["theories/Props/%s.vo" % prop_id])
-        make_dt += exec_dt
+        # the structure premise (Props/SCxx.v over gen/Structure.v) is built separately so that its failure is reported for what it is
+        ok_struct, struct_out, struct_dt = make(["theories/Props/S%s.vo" % prop_id])
+        make_dt += exec_dt + struct_dt
     bad = forbidden_scan()
     if ok_make:
         discharged, failed, axioms, audit_out = audit(prop_id, P.theorems)
@@ -277,6 +293,17 @@ def run_property(prop_id, tier, seed, replay=None):
         failed = list(P.theorems)
         discharged = []
         notes.append("forbidden vernacular: " + "; ".join(bad))
+    struct_thm = "%s_structure" % prop_id
+    all_theorems = list(P.theorems) + [struct_thm]
+    if ok_struct and not bad:
+        d2, f2, a2, _ = audit(prop_id, [struct_thm], module="S" + prop_id)
+        discharged += d2
+        failed += f2
+        axioms.update(a2)
+    else:
+        failed.append(struct_thm)
+    if struct_thm in failed:
+        notes.append("structure premise broken: " + structure_diff(prop_id))
 
     # ---- correspondence ----
     rng = random.Random(seed)
@@ -339,10 +366,10 @@ def run_property(prop_id, tier, seed, replay=None):
     ev = {
         "property_id": prop_id, "tier": tier, "seed": seed, "level": "proof",
         "coverage": {
-            "obligations": len(P.theorems), "discharged": len(discharged),
+            "obligations": len(all_theorems), "discharged": len(discharged),
             "checker_cmd": "cd /verif/coq && make theories/Props/%s.vo && coqc Audit_%s.v (Print Assumptions per obligation)" % (prop_id, prop_id),
             "trusted_base": TRUSTED_BASE + getattr(P, "extra_trusted", []),
-            "theorems": P.theorems, "failed_obligations": failed, "axioms": axioms,
+            "theorems": all_theorems, "failed_obligations": failed, "axioms": axioms,
             "evaluations": corr.get("evaluations", 0),
             "distinct_nontrivial": corr.get("distinct_nontrivial", 0),
             "rule": corr.get("rule", ""),
@@ -371,7 +398,7 @@ def run_property(prop_id, tier, seed, replay=None):
             print("VIOLATION property=%s replay=%s%s" % (prop_id, rp, tail))
         return 1
     print("OK property=%s tier=%s obligations=%d/%d cases=%d nontrivial=%d wall=%.1fs" % (
-        prop_id, tier, len(discharged), len(P.theorems), corr.get("evaluations", 0), corr.get("distinct_nontrivial", 0), wall))
+        prop_id, tier, len(discharged), len(all_theorems), corr.get("evaluations", 0), corr.get("distinct_nontrivial", 0), wall))
     return 0
 
 
